@@ -8,6 +8,7 @@ from .. import paths
 from ..core import FUNC, call_attr, calls_in, chain, dotted, kwarg, text, walk_local, norm, is_const, const
 
 EXPLANATION = [
+    "C03.command-parse-guard: Controller.on_packet parses the raw packet under a catch-all handler that answers a command packet with a Command Status for the opcode read from the bytes; HCI_Object.format_fields (behind every packet's __str__, evaluated for the debug log before dispatch) takes max() over its rows only when there are rows.",
     'C03.address-equality: (shared with C06) Address.__eq__ compares the bytes and the public / random kind only: a pending LE Create Connection naming an identity-typed peer address matches the advertiser and is concluded.',
     'C03.status-helper: Controller._send_hci_command_status sends exactly one event and returns nothing: handlers that end with `return self._send_hci_command_status(...)` give the dispatcher nothing to turn into a second Command Status.',
     'C03.match-arms: in the match statements of the anchored modules no class arm comes after an arm for one of its base classes (class patterns are isinstance tests in order: the later arm would never run).',
@@ -1159,7 +1160,49 @@ def address_equality_rule(ctx):
     address_equality(ctx, 'C03.address-equality')
 
 
+def command_parse_guard(ctx):
+    """Every command packet is answered, also one whose parameters cannot be parsed and one whose formatting for the debug
+    log would fail: Controller.on_packet parses under a catch-all handler that sends a Command Status carrying the opcode
+    read from the raw bytes when the packet is a command; and the formatter used by every packet's __str__ does not raise
+    on a packet whose only fields are empty lists."""
+    R, p = ctx.r, ctx.p
+    rule = 'C03.command-parse-guard'
+    fn = p.find('bumble.controller.Controller.on_packet')
+    ff = p.find('bumble.hci.HCI_Object.format_fields')
+    if fn is None or ff is None:
+        R.bad(rule, 'bumble.controller.Controller.on_packet / bumble.hci.HCI_Object.format_fields', 'anchor missing')
+        return
+    parse = [c for c in calls_in(fn) if (dotted(c.func) or '').endswith('HCI_Packet.from_bytes')]
+    ok = False
+    for c in parse:
+        a, prev = getattr(c, '_parent', None), c
+        while a is not None and a is not fn:
+            if isinstance(a, ast.Try) and any(prev is s_ or any(prev is x for x in ast.walk(s_)) for s_ in a.body):
+                for h in a.handlers:
+                    catch_all = h.type is None or text(h.type).split('.')[-1] in ('Exception', 'BaseException')
+                    sends = [x for x in calls_in(h) if dotted(x.func) in ('self._send_hci_command_status', 'self.send_hci_packet')]
+                    ok = ok or (catch_all and bool(sends))
+            prev, a = a, getattr(a, '_parent', None)
+    R.check(len(parse) == 1 and ok, rule, 'bumble.controller.Controller.on_packet | parse failure answered', 'a command that does not parse is answered with a Command Status for its opcode',
+            'Controller.on_packet parses the packet outside any handler (or its handler sends nothing): a command with truncated / ill-sized parameters gets no Command Complete or Command Status, the host waits for ever and holds the command semaphore', p.loc(fn))
+    # the formatter: max()/min() over the rows only when there are rows
+    from ..sym import exits
+    bad = []
+    for c in [x for x in walk_local(ff) if isinstance(x, ast.Call) and dotted(x.func) in ('max', 'min') and kwarg(x, 'default') is None and len(x.args) == 1 and isinstance(x.args[0], (ast.GeneratorExp, ast.ListComp, ast.Name))]:
+        seq = x_ = c.args[0]
+        src = seq.generators[0].iter if isinstance(seq, (ast.GeneratorExp, ast.ListComp)) else seq
+        nm = norm(src)
+        guards = [(norm(t), pol) for t, pol in paths.flat_guards(c, stop=ff)]
+        if not any((g == nm and pol) or (g == f'not {nm}' and not pol) or (g == nm and pol is True) for g, pol in guards) and not any(g == nm and not pol for g, pol in []):
+            # accepted form: an earlier `if not rows: return`
+            if not any(g == nm and pol for g, pol in guards):
+                bad.append(c)
+    R.check(not bad, rule, 'bumble.hci.HCI_Object.format_fields | no rows', 'max() over the formatted rows is reached only when there are rows',
+            'format_fields takes max() of an empty sequence for an object whose only fields are empty lists: str(packet) raises, and packets are formatted for the debug log before they are handled, so such a command is never answered', p.loc(ff))
+
+
 RULES = [
+    ('C03.command-parse-guard', command_parse_guard),
     ('C03.address-equality', address_equality_rule),
     ('C03.status-helper', status_helper),
     ('C03.match-arms', match_arms_rule),
